@@ -4,6 +4,7 @@ import (
 	"context"
 	"encoding/json"
 	"fmt"
+	"io"
 	"runtime"
 	"sort"
 	"strings"
@@ -32,6 +33,9 @@ func init() {
 type spy struct {
 	p9p.Session
 	log []spyCall
+	// eofAtEnd: an empty read at the end of a file is reported as io.EOF,
+	// as a Session that is not behind a wire may do
+	eofAtEnd bool
 }
 
 type spyCall struct {
@@ -93,6 +97,9 @@ func (s *spy) Remove(ctx context.Context, fid p9p.Fid) error {
 func (s *spy) Read(ctx context.Context, fid p9p.Fid, p []byte, off int64) (int, error) {
 	n, err := s.Session.Read(ctx, fid, p, off)
 	s.rec(spyCall{M: "read", Fid: fid}, err)
+	if s.eofAtEnd && n == 0 && err == nil {
+		err = io.EOF
+	}
 	return n, err
 }
 func (s *spy) Write(ctx context.Context, fid p9p.Fid, p []byte, off int64) (int, error) {
@@ -219,6 +226,7 @@ func (r *c20Run) do(o FOp, hist []FOp) (findings []explore.Finding, outcome stri
 	var err error
 	var newEnt p9p.Dirent
 	var qids []p9p.Qid
+	var dirNext p9p.ReadNext
 	p := catch(func() {
 		switch o.Kind {
 		case "attach":
@@ -228,7 +236,7 @@ func (r *c20Run) do(o FOp, hist []FOp) (findings []explore.Finding, outcome stri
 		case "open":
 			_, err = e.ent.Open(ctx, o.Mode)
 		case "opendir":
-			_, err = e.ent.OpenDir(ctx)
+			dirNext, err = e.ent.OpenDir(ctx)
 		case "create":
 			newEnt, _, err = e.ent.Create(ctx, o.Name, o.Perm, o.Mode)
 		case "stat":
@@ -333,6 +341,31 @@ func (r *c20Run) do(o FOp, hist []FOp) (findings []explore.Finding, outcome stri
 			}
 			if exp.OK {
 				e.open = true
+			}
+			// a listing read to its end issues nothing but reads on the
+			// entry's own fid (the fid-table comparison below then shows
+			// that the entry is still bound)
+			if o.Kind == "opendir" && err == nil && dirNext != nil && e.dir {
+				drainStart := len(r.spy.log)
+				r.spy.eofAtEnd = drainStart%2 == 1
+				defer func() { r.spy.eofAtEnd = false }()
+				if pn := catch(func() {
+					for i := 0; i < 8; i++ {
+						ds, derr := dirNext(ctx)
+						if derr != nil || len(ds) == 0 {
+							break
+						}
+					}
+				}); pn != "" {
+					r.poison = true
+					bad("panic:opendir-listing", "%s: reading the listing panicked or never returns: %s", o, pn)
+				}
+				for _, dc := range r.spy.log[drainStart:] {
+					if dc.M != "read" || dc.Fid != e.fid {
+						bad("wrong-session-call:listing", "%s: reading the listing to its end issued session call %+v; only reads on the entry's own fid %d correspond to it", o, dc, e.fid)
+						break
+					}
+				}
 			}
 		}
 	case "create":
